@@ -40,6 +40,7 @@ ExportSeqs ==
    "exccls"     - class 1 derives from Exception.
    "privtwin" / "privtwindeep" - module 2 has the same name as the public module 1 but lives in a private package (_hid/m, above module 1 in the
                   tree, or sub/deep/_hid/m, below it): declaration 2 is not public.
+   "privtwinlate" - the same with the private package in a place that sorts after the public module (sub/zz/_hid/m).
    "newtype"    - module 1 also defines a NewType that module 2 uses as a parameter type (a name of the package that is no analysed class).
    "pkgmodreexp" - declaration 1 is written into the package file sub/deep/__init__.py, declaration 2 into sub/__init__.py, which also
                   re-exports the package deep as a module  ('from . import deep').
@@ -57,7 +58,7 @@ ExportSeqs ==
                   (and `plain` by int): attributes are declarations like any other.
    "privreexp"  - like "distinct", but the sibling package (at = 3) is a private one (<root>/_other; reported as "other"): a public declaration
                   that only a private package re-exports is still emitted once, in its module's stub or in that package's. *)
-Variants == {"samemoduleboth", "bareimport", "privpkgtop", "privpkginit", "pkgnamed", "samenameboth", "genericattr", "privreexp", "distinct", "samename", "suffix", "samemodule", "initdecl", "sharedbase", "suffixalias", "stdlibname", "exccls", "pkgmodreexp", "privtwin", "privtwindeep", "newtype"}
+Variants == {"privtwinlate", "samemoduleboth", "bareimport", "privpkgtop", "privpkginit", "pkgnamed", "samenameboth", "genericattr", "privreexp", "distinct", "samename", "suffix", "samemodule", "initdecl", "sharedbase", "suffixalias", "stdlibname", "exccls", "pkgmodreexp", "privtwin", "privtwindeep", "newtype"}
 Universe == { [kind |-> k, exports |-> e, variant |-> "distinct"] : k \in Kinds, e \in ExportSeqs }
              \cup { [kind |-> k, exports |-> << Exp(a, 1, x) >>, variant |-> v] : k \in Kinds, a \in {0, 1, 2}, x \in {"", "AliasA"}, v \in {"samename", "suffix"} }
              \cup { [kind |-> k, exports |-> << Exp(a, 1, "") >>, variant |-> "samemodule"] : k \in Kinds, a \in {0, 1, 3} }
@@ -71,7 +72,7 @@ Universe == { [kind |-> k, exports |-> e, variant |-> "distinct"] : k \in Kinds,
              \cup { [kind |-> "class", exports |-> e, variant |-> "genericattr"] : e \in { << >>, << Exp(0, 1, "") >> } }
              \cup { [kind |-> k, exports |-> e, variant |-> "privreexp"] : k \in Kinds, e \in { << Exp(3, t, x) >> : t \in {1, 2}, x \in {"", "AliasA"} } \cup { << Exp(3, 1, ""), Exp(1, 1, "") >> } }
              \cup { [kind |-> k, exports |-> e, variant |-> "newtype"] : k \in Kinds, e \in { << >>, << Exp(0, 2, "") >> } }
-             \cup { [kind |-> k, exports |-> e, variant |-> v] : k \in Kinds, e \in { << >>, << Exp(0, 1, "") >> }, v \in {"privtwin", "privtwindeep"} }
+             \cup { [kind |-> k, exports |-> e, variant |-> v] : k \in Kinds, e \in { << >>, << Exp(0, 1, "") >> }, v \in {"privtwin", "privtwindeep", "privtwinlate"} }
              \cup { [kind |-> k, exports |-> << Exp(1, 1, "") >>, variant |-> "pkgmodreexp"] : k \in Kinds }
              \cup { [kind |-> "class", exports |-> e, variant |-> "exccls"] : e \in { << >>, << Exp(0, 1, "") >> } }
              \cup { [kind |-> k, exports |-> << Exp(a, 0, "") >>, variant |-> "stdlibname"] : k \in Kinds, a \in {0, 1, 3} }
@@ -90,11 +91,11 @@ ExposedNames(s, at, t) ==
                                        /\ \A m \in (j + 1)..Len(s.exports) : ~(s.exports[m].at = at /\ BoundName(s.exports[m]) = BoundName(s.exports[j])) } }
 PublicDecl(s, t) ==
   IF s.variant = "bareimport" THEN FALSE ELSE
-  IF s.variant \in {"privtwin", "privtwindeep"} THEN t = 1 ELSE
+  IF s.variant \in {"privtwin", "privtwindeep", "privtwinlate"} THEN t = 1 ELSE
   IF s.variant \in {"distinct", "samemodule", "initdecl", "sharedbase", "suffixalias", "stdlibname", "exccls", "pkgmodreexp", "newtype", "privreexp", "genericattr", "samenameboth", "pkgnamed", "privpkginit", "privpkgtop", "samemoduleboth"} THEN TRUE
   ELSE t = 1 /\ \E a \in Ats : Exposes(s, a, 1)       \* private modules: public only through the re-export, and only the re-exported declaration
 ModHomeV(s, t) == IF s.variant = "privtwin" THEN (IF t = 1 THEN <<"sub", "deep", "modsame">> ELSE <<"_hid", "modsame">>)
-                  ELSE IF s.variant = "privtwindeep" THEN (IF t = 1 THEN <<"sub", "deep", "modsame">> ELSE <<"sub", "deep", "_hid", "modsame">>) ELSE IF s.variant = "pkgmodreexp" THEN (IF t = 1 THEN <<"sub", "deep">> ELSE <<"sub">>) ELSE IF s.variant = "stdlibname" /\ t = 2 THEN <<"sub", "logging">> ELSE IF s.variant = "sharedbase" THEN <<"sub", "deep", "moda">> ELSE IF s.variant = "initdecl" /\ t = 1 THEN <<"sub", "deep">> ELSE IF s.variant = "pkgnamed" /\ t = 2 THEN <<"sub", "deep">> ELSE IF s.variant = "privpkginit" /\ t = 1 THEN <<"sub", "_2d">> ELSE IF s.variant = "privpkgtop" /\ t = 1 THEN <<"_2d">> ELSE IF s.variant \in {"samemodule", "samemoduleboth"} THEN (IF t = 1 THEN <<"sub", "deep", "modsame">> ELSE <<"sub", "modsame">>) ELSE ModHome(t)
+                  ELSE IF s.variant = "privtwindeep" THEN (IF t = 1 THEN <<"sub", "deep", "modsame">> ELSE <<"sub", "deep", "_hid", "modsame">>) ELSE IF s.variant = "privtwinlate" THEN (IF t = 1 THEN <<"sub", "deep", "modsame">> ELSE <<"sub", "zz", "_hid", "modsame">>) ELSE IF s.variant = "pkgmodreexp" THEN (IF t = 1 THEN <<"sub", "deep">> ELSE <<"sub">>) ELSE IF s.variant = "stdlibname" /\ t = 2 THEN <<"sub", "logging">> ELSE IF s.variant = "sharedbase" THEN <<"sub", "deep", "moda">> ELSE IF s.variant = "initdecl" /\ t = 1 THEN <<"sub", "deep">> ELSE IF s.variant = "pkgnamed" /\ t = 2 THEN <<"sub", "deep">> ELSE IF s.variant = "privpkginit" /\ t = 1 THEN <<"sub", "_2d">> ELSE IF s.variant = "privpkgtop" /\ t = 1 THEN <<"_2d">> ELSE IF s.variant \in {"samemodule", "samemoduleboth"} THEN (IF t = 1 THEN <<"sub", "deep", "modsame">> ELSE <<"sub", "modsame">>) ELSE ModHome(t)
 AllowedHomes(s, t) == { ModHomeV(s, t) } \cup { PkgPath(at) : at \in { a \in Ats : Exposes(s, a, t) } }
 AllowedNames(s, t) == { DName(t) } \cup UNION { ExposedNames(s, a, t) : a \in Ats }
 Targets(s) == {1} \cup { s.exports[j].tgt : j \in 1..Len(s.exports) }
